@@ -38,21 +38,29 @@ class DistinguisherMixin(abc.ABC):
         logger.info(f'Start update of distinguisher {self.__class__.__name__} with traces {traces.shape} and data {data.shape}.')
         o_shape = data.shape
         data = data.reshape((o_shape[0], -1))
+        initializing = not hasattr(self, '_origin_shape')
+        if initializing:
+            state_before = dict(self.__dict__)
         try:
-            self._origin_shape
-        except AttributeError:
-            logger.debug('Initialize distinguisher state.')
-            self._origin_shape = o_shape
-            logger.debug(f'Origin shape {self._origin_shape}')
-            mem = psutil.virtual_memory().available / 2 ** 30
-            logger.debug(f'Memory usage before compute {mem} GB.')
-            self._initialize(traces=traces, data=data)
+            if initializing:
+                logger.debug('Initialize distinguisher state.')
+                self._origin_shape = o_shape
+                logger.debug(f'Origin shape {self._origin_shape}')
+                mem = psutil.virtual_memory().available / 2 ** 30
+                logger.debug(f'Memory usage before compute {mem} GB.')
+                self._initialize(traces=traces, data=data)
 
-        self._check(traces=traces, data=data)
+            self._check(traces=traces, data=data)
 
+            logger.info('Will call _update traces.')
+            self._update(traces=traces, data=data)
+        except Exception:
+            if initializing:
+                # A refused first call must not leave a half-initialized distinguisher behind.
+                self.__dict__.clear()
+                self.__dict__.update(state_before)
+            raise
         self.processed_traces += traces.shape[0]
-        logger.info('Will call _update traces.')
-        self._update(traces=traces, data=data)
 
     @abc.abstractmethod
     def _initialize(self, traces, data):
